@@ -82,6 +82,16 @@ type Authority struct {
 	Order func(sorted []string) []string
 	// UsedSigner is the signer object of the most recent simulated process (for inspection).
 	lastSigner *nonprod.Signer
+
+	// Ordering bookkeeping of the operation in flight (decorated runs only).
+	FinalizeOK bool // the CA's Finalize has returned nil in this operation
+	Destroys   []DestroyRec
+}
+
+// DestroyRec records one DestroyKeyVersion call and whether the mutation had been made durable.
+type DestroyRec struct {
+	Name            string
+	AfterFinalizeOK bool
 }
 
 // NewAuthority builds an empty authority for the run.
@@ -106,6 +116,7 @@ func NewAuthority(r *core.Run, cfg Config, plan *seams.FaultPlan) *Authority {
 }
 
 func (a *Authority) installHooks() {
+	a.FinalizeOK, a.Destroys = false, nil
 	nonprod.VerifGenerateKey = a.Keygen.Generate
 	gcsca.VerifUploadOrder = a.Order
 }
@@ -220,13 +231,13 @@ func (a *Authority) decorator() cmd.CommandComponent {
 			return nil, err
 		}
 		if c.Manager != nil {
-			c.Manager = &faultyManager{c.Manager, a.Plan}
+			c.Manager = &faultyManager{c.Manager, a.Plan, a}
 		}
 		if c.Signer != nil {
 			c.Signer = &faultySigner{c.Signer, a.Plan}
 		}
 		if c.CA != nil {
-			c.CA = &faultyCA{c.CA, a.Plan}
+			c.CA = &faultyCA{c.CA, a.Plan, a}
 		}
 		return ctx, nil
 	}}
